@@ -403,6 +403,8 @@ class BSplineBasis:
         mu = bisect_right(self.knots, new_knot)
         n = self.num_functions()
         p = self.order
+        if self.periodic >= 0:
+            mu = min(mu, len(self.knots) - p) # the end of the domain is not passed
         C = np.zeros((n + 1, n))
         # the modulus operator i%n in the C-matrix is needed for periodic basis functions
         for i in range(mu - p):
